@@ -196,6 +196,28 @@ def variants(rng, d, tmp, tag, which=('lazy', 'raw', 'view_of_file', 'big_endian
                         changed = True
             if changed:
                 yield 'integer connectivity tables held as signed bytes (padding -1)', nt, base.copy(deep=True), None
+        if 'explicit_options' in which:
+            # the convention made explicitly from its documented keyword options instead of being detected
+            import emsarray.conventions.arakawa_c as A
+            import emsarray.conventions.grid as G
+            conv = base.ems
+            if isinstance(conv, G.CFGrid):
+                eo = base.copy(deep=True)
+                type(conv)(eo, latitude=conv.topology.latitude_name, longitude=conv.topology.longitude_name).bind()
+                yield ('bound explicitly with the latitude= and longitude= options naming its coordinate variables',
+                       eo, base.copy(deep=True), None)
+            elif isinstance(conv, A.ArakawaC):
+                # the eight coordinate variables under other names, told to the convention with the kinds listed in another order
+                names = {k.value: (str(a), str(b)) for k, (a, b) in conv.coordinate_names.items()}
+                rename = {n: f'geo_{n}' for pair in names.values() for n in pair}
+                eo = base.copy(deep=True).rename(rename)
+                order = list(names)
+                rng.shuffle(order)
+                if order[0] == 'face':
+                    order = order[1:] + order[:1]
+                type(conv)(eo, coordinate_names={k: (rename[names[k][0]], rename[names[k][1]]) for k in order}).bind()
+                yield (f'with its coordinate variables renamed and told to the convention through coordinate_names= (kinds listed as '
+                       f'{order})', eo, base.copy(deep=True), None)
         if 'transposed_view' in which:
             # data variables as transposed views of the same memory (dimensions reversed, column-major layout); geometry as it is
             tv = base.copy(deep=False)
@@ -275,6 +297,32 @@ def leg(ctx, rng, tmp, observe, what, families, which=None, n_per_family=1, prim
                 # a one-based mesh that names an edge dimension and stores nothing on edges: the edges are derived
                 d = gen.ugrid(rng, w=6, h=4, invalid=False, supplied=set(), edge_dim_declared=True, phantom_edge_dim=True,
                               start_index=1, fill='attr')
+            elif fam == 'cf1d_refused_bounds':
+                # bounds stored with the pair dimension first: the convention warns and derives the cells from the centres
+                d = gen.cf1d(rng, ny=rng.randint(3, 5), nx=rng.randint(3, 5), bounds=True, bad_bounds='transposed')
+            elif fam == 'ugrid_square_T':
+                # as many faces as nodes per face, the table stored with the faces along its second dimension
+                if rng.random() < 0.5:
+                    nodes = [(0, 0), (8, 0), (8, 8), (0, 8), (16, 4)]
+                    faces = [[0, 1, 2], [0, 2, 3], [1, 4, 2]]
+                    rng.shuffle(faces)
+                    faces = [f[k:] + f[:k] for f, k in ((f, rng.randrange(3)) for f in faces)]
+                    mesh = (nodes, faces)
+                else:
+                    mesh = gen.lattice_mesh(rng, 2, 2, variety=False, drop=False)
+                d = gen.ugrid(rng, mesh=mesh, invalid=False, transposed=True, supplied=set(), edge_dim_declared=False)
+            elif fam == 'ugrid_big_faces':
+                # a ten-sided face next to a triangle and a quadrilateral
+                nodes = [(0, 24), (16, 8), (40, 0), (64, 8), (80, 24), (80, 48), (64, 64), (40, 72), (16, 64), (0, 48),
+                         (104, 32), (-24, 48), (-24, 24)]
+                faces = [list(range(10)), [4, 10, 5], [9, 11, 12, 0]]
+                if rng.random() < 0.5:
+                    faces[0] = faces[0][3:] + faces[0][:3]
+                rng.shuffle(faces)
+                d = gen.ugrid(rng, mesh=(nodes, faces), invalid=False)
+            elif fam == 'ugrid_edge_faces_only':
+                # the edges are known only through an edge_face table: no edge_dimension attribute, no edge_node table
+                d = gen.ugrid(rng, w=3, h=2, invalid=False, supplied={'edge_face'}, edge_dim_declared=False, transposed=False)
             else:
                 d = gen.any_dataset(rng, fam, **(dataset_kw or {}).get(fam, {}))
             guards.append(d)
@@ -820,19 +868,19 @@ def obs_transect(ds):
 
 
 RUNS = {
-    'C01': (obs_index, 'index conversion', gen.FAMILIES + ['ugrid_edges'], None, ('lazy', 'raw', 'view_of_file', 'big_endian', 'narrow_tables')),
-    'C02': (obs_geometry, 'polygons, centres, lookups and spatial index', gen.FAMILIES + ['cf1d_int', 'ugrid_quads1'], with_data, ('lazy', 'raw', 'view_of_file', 'big_endian', 'transposed_view', 'mixed_precision')),
+    'C01': (obs_index, 'index conversion', gen.FAMILIES + ['ugrid_edges', 'ugrid_edge_faces_only'], None, ('lazy', 'raw', 'view_of_file', 'big_endian', 'narrow_tables')),
+    'C02': (obs_geometry, 'polygons, centres, lookups and spatial index', gen.FAMILIES + ['cf1d_int', 'ugrid_quads1', 'ugrid_square_T', 'ugrid_big_faces', 'cf1d_refused_bounds'], with_data, ('lazy', 'raw', 'view_of_file', 'big_endian', 'transposed_view', 'mixed_precision')),
     'C03': (obs_flatten, 'flatten and wind', gen.FAMILIES, with_data, None),
-    'C04': (obs_geometry, 'polygons and point lookups', gen.FAMILIES + ['cf1d_desc', 'ugrid_quads1', 'cf2d_river'], None, ('lazy', 'raw', 'view_of_file', 'big_endian', 'mixed_precision')),
+    'C04': (obs_geometry, 'polygons and point lookups', gen.FAMILIES + ['cf1d_desc', 'ugrid_quads1', 'cf2d_river', 'ugrid_big_faces', 'cf1d_refused_bounds', 'ugrid_square_T'], None, ('lazy', 'raw', 'view_of_file', 'big_endian', 'mixed_precision')),
     'C05': (obs_select, 'point selection', gen.FAMILIES + ['ugrid_quads1'], with_data, None),
-    'C06': (obs_geometry, 'polygons, bounds and mask', gen.FAMILIES + ['cf1d_desc', 'cf1d_int', 'cf1d_bounds', 'ugrid_quads1'], None, ('lazy', 'raw', 'view_of_file', 'big_endian', 'mixed_precision', 'raw_unsigned')),
+    'C06': (obs_geometry, 'polygons, bounds and mask', gen.FAMILIES + ['cf1d_desc', 'cf1d_int', 'cf1d_bounds', 'ugrid_quads1', 'ugrid_big_faces', 'cf1d_refused_bounds', 'ugrid_square_T'], None, ('lazy', 'raw', 'view_of_file', 'big_endian', 'mixed_precision', 'raw_unsigned')),
     'C07': (obs_clip_mask, 'clip masks', gen.FAMILIES, None, ('lazy', 'raw', 'view_of_file', 'big_endian')),
-    'C10': (obs_topology, 'mesh tables and polygons', ['ugrid', 'ugrid_edges', 'ugrid'], None, ('lazy', 'raw', 'view_of_file', 'big_endian', 'narrow_tables', 'mixed_precision', 'raw_unsigned')),
+    'C10': (obs_topology, 'mesh tables and polygons', ['ugrid', 'ugrid_edges', 'ugrid', 'ugrid_square_T', 'ugrid_big_faces', 'ugrid_edge_faces_only'], None, ('lazy', 'raw', 'view_of_file', 'big_endian', 'narrow_tables', 'mixed_precision', 'raw_unsigned')),
     'C11': (obs_detect, 'convention detection', gen.FAMILIES, None, ('lazy', 'raw', 'view_of_file', 'big_endian')),
     'C12': (obs_floor, 'ocean floor', ['cf1d', 'cf2d', 'shoc_standard', 'ugrid'], with_depth, ('lazy', 'raw', 'view_of_file', 'big_endian', 'transposed_view')),
     'C13': (obs_normalize, 'depth normalisation', ['cf1d', 'shoc_simple', 'ugrid'], with_depth, ('lazy', 'raw', 'view_of_file', 'big_endian')),
-    'C14': (obs_triangulate, 'triangulation', gen.FAMILIES + ['ugrid_quads1'], None, ('lazy', 'raw', 'view_of_file', 'big_endian', 'mixed_precision')),
-    'C15': (obs_export, 'geometry export', gen.FAMILIES + ['cf1d_desc', 'cf1d_bounds', 'ugrid_quads1'], None, ('lazy', 'raw', 'view_of_file', 'big_endian', 'mixed_precision')),
+    'C14': (obs_triangulate, 'triangulation', gen.FAMILIES + ['ugrid_quads1', 'ugrid_big_faces'], None, ('lazy', 'raw', 'view_of_file', 'big_endian', 'mixed_precision')),
+    'C15': (obs_export, 'geometry export', gen.FAMILIES + ['cf1d_desc', 'cf1d_bounds', 'ugrid_quads1', 'ugrid_big_faces'], None, ('lazy', 'raw', 'view_of_file', 'big_endian', 'mixed_precision')),
     'C18': (obs_transect, 'transect pieces and prepared data', ['cf1d', 'cf2d', 'ugrid'], with_depth, ('lazy', 'view_of_file', 'big_endian', 'transposed_view')),
     'C19': (obs_plot, 'polygon collection', gen.FAMILIES + ['ugrid_quads1'], with_data, None),
 }
@@ -845,6 +893,10 @@ def run_for(ctx, n_per_family=1):
     if ctx.pid not in RUNS:
         return
     observe, what, families, prepare, which = RUNS[ctx.pid]
+    which = tuple(which or ('lazy', 'raw', 'view_of_file', 'big_endian', 'transposed_view'))
+    if ctx.pid != 'C11':
+        # (detection is not asked of a dataset whose convention was made explicitly)
+        which += ('explicit_options',)
     tmp = tempfile.mkdtemp(prefix=f'{ctx.pid.lower()}_traits_', dir=os.environ.get('VERIF_WORK', '/verif/work'))
     try:
         kw = {'invalid': False}
